@@ -255,7 +255,11 @@ func check(c Case) error {
 	// solo reference: every job alone, built from unshared copies, with paths no other job shares
 	ref := make([]string, n)
 	for i, j := range fresh(true) {
-		ref[i] = norm(renderFile((&recipe.Builder{}).File(stripRefs(j))))
+		// (the reference is built without the clone form of recipe.Builder.Stmt, everything else with it)
+		recipe.NoCloneForm = true
+		f := (&recipe.Builder{}).File(stripRefs(j))
+		recipe.NoCloneForm = false
+		ref[i] = norm(renderFile(f))
 	}
 	cmp := func(schedule string, i int, got string) error {
 		if norm(got) != ref[i] {
